@@ -219,10 +219,24 @@ fn derive_not_shape(def: &NotDef, symbol_table: &mut BTreeMap<Rc<str>, Shape>) -
             pos: _,
             types: NarrowingShape::Narrowed(shape_list),
         }) => {
-            for s in shape_list.iter() {
-                if let Shape::Boolean(_) = s {
-                    return Shape::Boolean(def.pos.clone());
+            // one of the candidates (possibly itself a set of candidates, as for an
+            // element of a list of selects) may be a boolean
+            fn may_be_boolean(s: &Shape) -> bool {
+                match s {
+                    Shape::Boolean(_) | Shape::Hole(_) => true,
+                    Shape::Narrowed(NarrowedShape {
+                        types: NarrowingShape::Any,
+                        ..
+                    }) => true,
+                    Shape::Narrowed(NarrowedShape {
+                        types: NarrowingShape::Narrowed(l),
+                        ..
+                    }) => l.iter().any(may_be_boolean),
+                    _ => false,
                 }
+            }
+            if shape_list.iter().any(may_be_boolean) {
+                return Shape::Boolean(def.pos.clone());
             }
         }
         _ => {
